@@ -11,7 +11,7 @@ CTX = {}
 def gen_case(rng):
     return {'kind': 'schemaleak', 'order': rng.choice(['plain-first', 'over-first']),
             'how': rng.choice(['_schema', '_condition', 'merge_overrides', '_schema_default', 'nested_glob',
-                               'override_after_run', 'shared_params', '_schema_updater']),
+                               'nested_glob_dict', 'override_after_run', 'shared_params', '_schema_updater']),
             'glob_child': rng.random() < 0.7, 'ticks': rng.choice([1, 2])}
 
 
@@ -27,7 +27,9 @@ def corpus():
             # F48: two processes built from one parameter dictionary that carries a `_schema`
             {'kind': 'schemaleak', 'order': 'plain-first', 'how': 'shared_params', 'glob_child': True, 'ticks': 1},
             # F33: two glob viewers with nested sub-schemas on one store
-            {'kind': 'schemaleak', 'order': 'plain-first', 'how': 'nested_glob', 'glob_child': True, 'ticks': 1}]
+            {'kind': 'schemaleak', 'order': 'plain-first', 'how': 'nested_glob', 'glob_child': True, 'ticks': 1},
+            # the same two viewers wired through a dictionary topology ({'_path': …, '*': {…}}) that renames the branch
+            {'kind': 'schemaleak', 'order': 'plain-first', 'how': 'nested_glob_dict', 'glob_child': True, 'ticks': 2}]
 
 
 def run_impl(case):
@@ -53,7 +55,7 @@ def run_impl(case):
                            'g': {k: sorted(v.keys()) for k, v in states['g'].items()}})
             return {'a': {'x': 1}} if bump else {}
     obs = {'log': log}
-    if case['how'] == 'nested_glob':
+    if case['how'] in ('nested_glob', 'nested_glob_dict'):
         return _nested_glob(case, key, log)
     try:
         if case['how'] == '_schema':
@@ -140,8 +142,39 @@ def _nested_glob(case, key, log):
     try:
         names = ['plain', 'over'] if case['order'] == 'plain-first' else ['over', 'plain']
         procs = {n: V({'var': 'x' if n == 'plain' else 'y', 'who': n, 'key': key}) for n in names}
-        topology = {n: {'a': ('A',) if n == 'over' else ('A2',), 'g': ('G',)} for n in names}
-        eng = Engine(processes=procs, topology=topology, initial_state={'G': {'c0': {}}},
+        dict_wired = case['how'] == 'nested_glob_dict'
+        g = {'_path': ('G',), '*': {'inner': ('boundary',)}} if dict_wired else ('G',)
+        topology = {n: {'a': ('A',) if n == 'over' else ('A2',), 'g': g} for n in names}
+        init = {'G': {'c0': {'boundary': {'x': 5, 'y': 6, 'z': 7}} if dict_wired else {}}}
+        if dict_wired:
+            # the child's own process establishes its `boundary` store (a child of a dictionary-wired glob that exists
+            # through the initial state only cannot be built: noted edge)
+            class Cell(Process):
+                def ports_schema(self):
+                    return {'boundary': {v: {'_default': 0} for v in 'xyz'}}
+
+                def next_update(self, timestep, states):
+                    return {}
+            procs['G'] = {'c0': {'cell': Cell()}}
+            topology['G'] = {'c0': {'cell': {'boundary': ('boundary',)}}}
+        if dict_wired and case.get('glob_child'):
+            # a third process adds a child at run time
+            class Adder(Process):
+                def __init__(self, parameters=None):
+                    super().__init__(parameters)
+                    self.n = 0
+
+                def ports_schema(self):
+                    return {'g': {'*': {}}}
+
+                def next_update(self, timestep, states):
+                    self.n += 1
+                    if self.n == 1:
+                        return {'g': {'_add': [{'key': 'c1', 'state': {'boundary': {'x': 1, 'y': 2}}}]}}
+                    return {}
+            procs['adder'] = Adder()
+            topology['adder'] = {'g': ('G',)}
+        eng = Engine(processes=procs, topology=topology, initial_state=init,
                      emitter={'type': 'null'}, display_info=False, progress_bar=False)
         eng.update(case['ticks'])
         obs['values'] = obs['expected_values'] = {}
